@@ -34,15 +34,13 @@ RowCellsSame(t, u, r) == VRow(u, r).c = VRow(t, r).c
 (* handed out, is the old scrollback followed by the rows `added`               *)
 SbRel(t, u, added, dr) ==
   LET want == SB(t) \o added IN
-  IF t.alt THEN SB(u) = <<>>                                    \* the alternate screen keeps none
-  ELSE IF ~dr.known THEN SuffixOf(SB(u), want)
+  IF t.alt \/ ~dr.known THEN SuffixOf(SB(u), want)            \* (that the alternate screen keeps none is C13's Bound)
   ELSE dr.lines \o SB(u) = want
 SbSame(t, u, dr) == SbRel(t, u, <<>>, dr)
 CellsOf(lines) == [i \in 1..Len(lines) |-> lines[i].c]
 SbRelCells(t, u, added, dr) ==                                   \* same, comparing cells only (marks aside)
   LET want == CellsOf(SB(t) \o added) IN
-  IF t.alt THEN SB(u) = <<>>
-  ELSE IF ~dr.known THEN Len(SB(u)) <= Len(want) /\ CellsOf(SB(u)) = LastN(want, Len(SB(u)))
+  IF t.alt \/ ~dr.known THEN Len(SB(u)) <= Len(want) /\ CellsOf(SB(u)) = LastN(want, Len(SB(u)))
   ELSE CellsOf(dr.lines \o SB(u)) = want
 
 (* "Wrap pending" is defined PUBLICLY: the cursor column equals cols (C02: that  *)
